@@ -300,6 +300,11 @@ func (t *Topic) handleCallEvent(msg *ClientComMessage) {
 				head, t.currentCall.content); err != nil {
 				return
 			}
+			if t.currentCall == nil {
+				// The call was terminated while the message was being broadcast:
+				// the originator's session was stuck and has been dropped.
+				return
+			}
 			// Add callee data to t.currentCall.
 			t.currentCall.parties[msg.sess.sid] = callPartyData{
 				uid:          asUid,
